@@ -629,7 +629,7 @@ def corpus_cases():
     return out
 
 
-ANCHOR_COVERAGE_NOTE = ("coverage round 2026-09-26 (measured outside the check, quick tier seed 0, coverage --branch on tenpy/networks/mps.py): this property's quick tier 32.4% -> 44.4% (lines 35.8% -> 47.7%, branches 24.2% -> 36.3%); C07+C08+C09 together 57.5% -> 83.5% (lines 61.2% -> 85.5%, branches 48.5% -> 78.6%). 11 extra mechanisms with dense oracles in harness/mps_extra.py (C07_SUBS); see notes/C07.md 'Coverage round'.")
+ANCHOR_COVERAGE_NOTE = ("coverage round 2026-09-26 (measured outside the check, quick tier seed 0, coverage --branch on tenpy/networks/mps.py): this property's quick tier 32.4% -> 44.4% (lines 35.8% -> 47.7%, branches 24.2% -> 36.3%); C07+C08+C09 together 57.5% -> 83.5% (lines 61.2% -> 85.5%, branches 48.5% -> 78.6%). 12 extra mechanisms with dense oracles in harness/mps_extra.py (C07_SUBS; segment_history added later the same day, not in the measured numbers); see notes/C07.md 'Coverage round'.")
 
 
 def run(ctx):
